@@ -22,6 +22,9 @@ CHUNKER = VerusUnit(
         VItem(LIB, ["const STUFF_SEQUENCE"]),
         VGhost("../hcobs/spec_enc.rs"),
         VGhost("assumed.rs"),
+        VFn(LIB, ["fn find_stuff_sequence"], "find_stuff_sequence.ovl", ["C08"],
+            "Some(i) <=> i is the first index with bytes[i..i+2] == FE FD; None <=> FE FD occurs nowhere; terminates; no panic",
+            rules={"N5", "N16"}, name="find_stuff_sequence"),
         VItem(F, ["struct StreamChunker"], keep_derives=()),
         VItem(F, ["enum Chunk"], keep_derives=()),
         VGhost("spec.rs"),
